@@ -111,6 +111,103 @@ def check_bay_fext(led):
             report(led, name, func, probs)
 
 
+def check_bay_fext_stiffeners(led):
+    """StiffPanelBay.calc_fext with 2-D stiffeners: the load vector is the concatenation skin | flanges of the 2-D blade stiffeners |
+    base, flange of the T stiffeners -- the ranges the matrices use -- and each part collects [fx, fy, fz] . g of its own component"""
+    func = 'compmech/stiffpanelbay/stiffpanelbay.py:StiffPanelBay.calc_fext'
+    from ..pysym import to_z3
+    from ..kharness import FLAG_NAMES
+    from . import py_stiffeners
+    it, calls = py_panel.mk()
+    py_stiffeners._with_plies(it)
+    it.algebraic_minmax = True
+    bmod = it.module('compmech.stiffpanelbay.stiffpanelbay')
+    lam = dict(stack=[real('th')], plyt=real('t'), laminaprop=(real('E'), real('E'), real('nu')))
+    flam = dict(fstack=[real('thf')], fplyt=real('tf'), flaminaprop=(real('Ef'), real('Ef'), real('nuf')))
+    blam = dict(bstack=[real('thb')], bplyt=real('tb'), blaminaprop=(real('Eb'), real('Eb'), real('nub')))
+
+    class Concat(object):
+        def __init__(self, parts):
+            self.parts = parts
+
+    def concatenate(parts):
+        out = []
+        for x in parts:
+            out += x.parts if isinstance(x, Concat) else [x]
+        return Concat(out)
+    for kinds in (('b2',), ('t2',), ('t2', 'b2'), ('b2', 't2', 'b2')):
+        tag = 'stiffeners=%s' % '/'.join(kinds)
+
+        def run():
+            del calls[:]
+            bay = it.call(bmod.g['StiffPanelBay'], [], {})
+            a, b = real('a'), real('b')
+            m, n = integer('m'), integer('n')
+            bay.attrs.update(a=a, b=b, m=m, n=n, mu=real('mu'), r=None, model='plate_clt_donnell_bardell', **lam)
+            for f in FLAG_NAMES:
+                bay.attrs[f] = real(f + '_bay')
+            cuts = [P.const(0)] + [real('ys%d' % q) for q in range(len(kinds))] + [b]
+            it.facts[:] = [to_z3(a) > 0, to_z3(b) > 0, to_z3(a) <= 10 * to_z3(b)]
+            for q in range(len(cuts) - 1):
+                it.facts.append(to_z3(cuts[q]) < to_z3(cuts[q + 1]))
+                it.call(it.getattr(bay, 'add_panel'), [], dict(y1=cuts[q], y2=cuts[q + 1]))
+            it.np.isclose = lambda x, y, **k: pysym.compare('==', x if isinstance(x, P) else P.const(x), y if isinstance(y, P) else P.const(y))
+            it.np.concatenate = concatenate
+            comps = []
+            for q, k in enumerate(kinds):
+                ys = cuts[q + 1]
+                if k == 'b2':
+                    s_ = it.call(it.getattr(bay, 'add_bladestiff2d'), [], dict(ys=ys, bf=real('bf%d' % q), mf=integer('mf%d' % q), nf=integer('nf%d' % q), **flam))
+                else:
+                    s_ = it.call(it.getattr(bay, 'add_tstiff2d'), [], dict(ys=ys, bb=real('bb%d' % q), bf=real('bf%d' % q), mb=integer('mb%d' % q), nb=integer('nb%d' % q),
+                                                                            mf=integer('mf%d' % q), nf=integer('nf%d' % q), **dict(flam, **blam)))
+                for reg in (('flange',) if k == 'b2' else ('base', 'flange')):
+                    force = [real('%s_%d%s' % (nm, q, reg[0])) for nm in ('x', 'y', 'fx', 'fy', 'fz')]
+                    s_.attrs[reg].attrs['forces'] = [force]
+                    comps.append((q, k, reg, s_.attrs[reg], force))
+            bay.attrs['forces_skin'] = [[real(nm + '_s') for nm in ('x', 'y', 'fx', 'fy', 'fz')]]
+            del calls[:]
+            r = it.call(it.getattr(bay, 'calc_fext'), [], dict(silent=True))
+            return bay, r, comps, (m, n)
+        for path, out in it.explore(run):
+            name = '%s[%s]' % (func, tag)
+            if out[0] != 'return':
+                e = out[1]
+                report(led, name + '/no-exception', func, ['raises %s%s' % (e.tname, tuple(str(q)[:80] for q in e.eargs))], signature='raise:%s' % e.tname)
+                continue
+            bay, r, comps, (m, n) = out[1]
+            probs = []
+            # expected order of the parts: the order of the matrices
+            order = [c_ for c_ in comps if c_[1] == 'b2'] + [c_ for c_ in comps if c_[1] == 't2']
+            want_parts = [('skin', bay.attrs['panels'][0], bay.attrs['forces_skin'][0], 3 * m * n)]
+            for (q, k, reg, comp, force) in order:
+                mm, nn = (integer('mf%d' % q), integer('nf%d' % q)) if reg == 'flange' else (integer('mb%d' % q), integer('nb%d' % q))
+                want_parts.append(('stiffener %d %s' % (q, reg), comp, force, 3 * mm * nn))
+            parts = r.parts if isinstance(r, Concat) else [r]
+            if len(parts) != len(want_parts):
+                probs.append('%d parts, expected %d (skin, then the components of the 2-D stiffeners)' % (len(parts), len(want_parts)))
+            else:
+                for part, (label, comp, force, length) in zip(parts, want_parts):
+                    if not isinstance(part, OutArray) or not normal(part.length - length).is_zero():
+                        probs.append('%s: part of length %s, expected %s' % (label, getattr(part, 'length', None), length))
+                        continue
+                    if len(part.stores) != 1:
+                        probs.append('%s: %d contributions, expected the one force of this component' % (label, len(part.stores)))
+                        continue
+                    key, val = part.stores[0][0], part.stores[0][1]
+                    if key != slice(None) or not hasattr(val, 'terms') or len(val.terms) != 3:
+                        probs.append('%s: contribution is not a combination of the three rows of the basis matrix' % label)
+                        continue
+                    for d, (coef, (row, fill)) in enumerate(val.terms):
+                        if row != d or not normal((coef if isinstance(coef, P) else P.const(coef)) - force[2 + d]).is_zero():
+                            probs.append('%s: row %s weighted with %s, expected component %d of its force' % (label, row, coef, d))
+                        dd = pycheck.diff_kernel(fill, 'fg', 'clt_bardell_field', dict(x=force[0], y=force[1]),
+                                                 {k_: comp.attrs[k_] for k_ in ('a', 'b', 'm', 'n')})
+                        probs += ['%s: %s' % (label, x_) for x_ in dd[:2]]
+            report(led, name, func, probs)
+    led.solver_time('z3-feasibility', it.solver_time)
+
+
 def replay_bay_fext():
     from ..pyreplay import run_real
     script = '''
@@ -197,9 +294,12 @@ def body(led):
     py_assembly.check_fext(led)
     check_cfg(led)
     check_bay_fext(led)
+    check_bay_fext_stiffeners(led)
     check_solve(led)
     from . import sparse_standin
-    sparse_standin.check(led, ['solve', 'remove_null_cols'])
+    sparse_standin.check(led, ['solve'])
+    from . import sparse_proof
+    sparse_proof.remove_null_cols_or_standin(led)
 
 
 def main():
